@@ -237,21 +237,21 @@ macro_rules! proofs {
     )*};
 }
 
-// @harness c02_partial_dsym_n2d2_values tier=quick unwind=5 block=128 mem=14 timeout=1500
-// @harness c02_partial_dsym_n2d2_values_reach tier=quick unwind=5 block=128 mem=14 timeout=1500 twin
-// @harness c02_partial_dsym_n2d2_symmetry tier=quick unwind=5 block=128 mem=14 timeout=1500
-// @harness c02_partial_dsym_n2d2_orbits tier=quick unwind=5 block=128 mem=14 timeout=1500
-// @harness c02_simple_dsym_n2d2_values tier=quick unwind=5 block=128 mem=14 timeout=1500
-// @harness c02_simple_dsym_n2d2_values_reach tier=quick unwind=5 block=128 mem=14 timeout=1500 twin
-// @harness c02_simple_dsym_n2d2_symmetry tier=quick unwind=5 block=128 mem=14 timeout=1500
-// @harness c02_simple_dsym_n2d2_orbits tier=quick unwind=5 block=128 mem=14 timeout=1500
-// @harness c02_collect_orbits_n2d2 tier=quick unwind=5 block=128 mem=10 timeout=1200
-// @harness c02_collect_orbits_n2d2_reach tier=quick unwind=5 block=128 mem=10 timeout=1200 twin
+// @harness c02_partial_dsym_n2d2_values tier=quick unwind=5 block=64 mem=9 timeout=969
+// @harness c02_partial_dsym_n2d2_values_reach tier=quick unwind=5 block=64 mem=9 timeout=900 twin
+// @harness c02_partial_dsym_n2d2_symmetry tier=quick unwind=5 block=64 mem=13 timeout=1284
+// @harness c02_partial_dsym_n2d2_orbits tier=quick unwind=5 block=64 mem=14 timeout=1580
+// @harness c02_simple_dsym_n2d2_values tier=quick unwind=5 block=64 mem=9 timeout=900
+// @harness c02_simple_dsym_n2d2_values_reach tier=quick unwind=5 block=64 mem=9 timeout=900 twin
+// @harness c02_simple_dsym_n2d2_symmetry tier=quick unwind=5 block=64 mem=13 timeout=1324
+// @harness c02_simple_dsym_n2d2_orbits tier=quick unwind=5 block=64 mem=14 timeout=1547
+// @harness c02_collect_orbits_n2d2 tier=quick unwind=5 block=64 mem=8 timeout=900
+// @harness c02_collect_orbits_n2d2_reach tier=quick unwind=5 block=64 mem=7 timeout=900 twin
 // @harness c02_collect_orbits_n3d2 tier=thorough unwind=6 block=128 mem=24 timeout=3000
-// @harness c02_conv_partial_dsym_n2d2 tier=quick unwind=5 block=128 mem=20 timeout=1800
-// @harness c02_conv_dset_n2d2 tier=quick unwind=5 block=128 mem=20 timeout=1800
-// @harness c02_conv_dsym_n2d2 tier=quick unwind=5 block=128 mem=20 timeout=1800
-// @harness c02_conv_dsym_n2d2_reach tier=quick unwind=5 block=128 mem=20 timeout=1800 twin
+// @harness c02_conv_partial_dsym_n2d2 tier=quick unwind=5 block=64 mem=21 timeout=2742
+// @harness c02_conv_dset_n2d2 tier=quick unwind=5 block=64 mem=8 timeout=900
+// @harness c02_conv_dsym_n2d2 tier=quick unwind=5 block=64 mem=15 timeout=2094
+// @harness c02_conv_dsym_n2d2_reach tier=quick unwind=5 block=64 mem=14 timeout=936 twin
 // @harness c02_partial_dsym_n3d2_values tier=thorough unwind=6 block=128 mem=28 timeout=3600
 // @harness c02_simple_dsym_n3d2_values tier=thorough unwind=6 block=128 mem=28 timeout=3600
 // @harness c02_simple_dsym_n2d3_values tier=thorough unwind=6 block=128 mem=28 timeout=3600
